@@ -3325,6 +3325,7 @@ void ScriptThread::ScriptExecuteInternal(const VarListView& data)
     Director.m_CurrentThread = this;
 
     Stop();
+    ++Director.m_ExecutionDepth;
     try
     {
         m_ScriptVM->Execute(data);
@@ -3332,16 +3333,23 @@ void ScriptThread::ScriptExecuteInternal(const VarListView& data)
     catch (...)
     {
         // the thread was interrupted: the scheduler must not stay blocked on it
+        --Director.m_ExecutionDepth;
         Director.m_CurrentThread = currentThread;
         Director.m_PreviousThread = previousThread;
         throw;
     }
+    --Director.m_ExecutionDepth;
 
     // restore the previous values
     Director.m_CurrentThread = currentThread;
     Director.m_PreviousThread = previousThread;
 
-    Director.ExecuteRunning();
+    if (!Director.m_ExecutionDepth)
+    {
+        // only the outermost execution runs the due threads: an enclosing thread (even one
+        // that died meanwhile) is still on the native stack
+        Director.ExecuteRunning();
+    }
 }
 
 void ScriptThread::StoppedNotify(void)
